@@ -40,19 +40,6 @@ Definition edge_ends_ok (g : graph) (e : edge) : bool := has_id g (ea e) && has_
 Fixpoint edges_nodup_b (l : list edge) : bool :=
   match l with [] => true | e :: r => negb (existsb (fun e' => same_ends e' (ea e) (eb e)) r) && edges_nodup_b r end.
 
-Definition nb_where (g : graph) (x : str) (P : str -> rel -> bool) : list str :=
-  map fst (filter (fun p => P (fst p) (snd p)) (nbrs g x)).
-
-(* rule 9: the owning node(s) of a component *)
-Definition comp_owners (g : graph) (x : str) : list str :=
-  nb_where g x (fun j r => rel_eqb r Has && (cls_is g j KNode || cls_is g j KComposite)).
-(* the owner(s) of a network service: node, composite node or component *)
-Definition ns_owners (g : graph) (x : str) : list str :=
-  nb_where g x (fun j r => rel_eqb r Has && (cls_is g j KNode || cls_is g j KComposite || cls_is g j KComp)).
-(* the owner(s) of an interface: a service, or for a sub-interface its parent interface *)
-Definition cp_owners (g : graph) (x : str) : list str :=
-  nb_where g x (fun j r => rel_eqb r Connects &&
-                           (cls_is g j KNS || (typ_is g x sSubInterface && cls_is g j KCP && negb (typ_is g j sSubInterface)))).
 Definition sub_shape_ok (g : graph) (x : str) : bool :=
   forallb (fun j => xorb (typ_is g x sSubInterface) (typ_is g j sSubInterface)) (first_nb g x Connects KCP).
 (* rule 10: links connect only to interfaces *)
